@@ -71,20 +71,27 @@ def InsnEntry.resolve (m : List (Nat × Nat)) (e : InsnEntry) : Option InsnEntry
     | some f => (f.resolve m).map some
   pure ⟨none, f, i⟩
 
+def resolveExceptions (m : List (Nat × Nat)) (es : List ExceptionEntry) : Option (List ExceptionEntry) :=
+  mapM' (fun (e : ExceptionEntry) => do
+    let a ← lookupLabel m e.start; let b ← lookupLabel m e.end_; let h ← lookupLabel m e.handler
+    pure (⟨a, b, h, e.catch_⟩ : ExceptionEntry)) es
+
+def resolveLines (m : List (Nat × Nat)) : Option (List (Nat × Nat)) → Option (Option (List (Nat × Nat)))
+  | none => some none
+  | some ls => (mapM' (fun (ln : Nat × Nat) => do let l ← lookupLabel m ln.1; pure (l, ln.2)) ls).map some
+
+def resolveLocals (m : List (Nat × Nat)) : Option (List Lv) → Option (Option (List Lv))
+  | none => some none
+  | some ls => (mapM' (fun (v : Lv) => do
+      let a ← lookupLabel m v.start; let b ← lookupLabel m v.end_
+      pure ({ v with start := a, end_ := b } : Lv)) ls).map some
+
 def Code.resolve (c : Code) : Option Code := do
   let m := labelIndex c.insns c.lastLabel
   let insns ← mapM' (InsnEntry.resolve m) c.insns
-  let exceptions ← mapM' (fun (e : ExceptionEntry) => do
-    let a ← lookupLabel m e.start; let b ← lookupLabel m e.end_; let h ← lookupLabel m e.handler
-    pure (⟨a, b, h, e.catch_⟩ : ExceptionEntry)) c.exceptions
-  let lines ← match c.lines with
-    | none => some none
-    | some ls => (mapM' (fun (l, n) => do let l ← lookupLabel m l; pure (l, n)) ls).map some
-  let locals ← match c.locals with
-    | none => some none
-    | some ls => (mapM' (fun (v : Lv) => do
-        let a ← lookupLabel m v.start; let b ← lookupLabel m v.end_
-        pure ({ v with start := a, end_ := b } : Lv)) ls).map some
+  let exceptions ← resolveExceptions m c.exceptions
+  let lines ← resolveLines m c.lines
+  let locals ← resolveLocals m c.locals
   let rvta ← mapM' (TypeAnno.resolve m) c.rvta
   let ritva ← mapM' (TypeAnno.resolve m) c.ritva
   pure { c with insns := insns, exceptions := exceptions, lastLabel := none, lines := lines, locals := locals,
